@@ -25,6 +25,36 @@ def extCodes (cls : String) : List Nat :=
   | some .supportedVersionsClient => Gen.TlsVersion.codes
   | _ => []
 
+/-- the name table of an extension class with opaque-coded names -/
+def extNames (cls : String) : List Gen.WireName :=
+  if cls == "TlsExtensionNextProtocolNegotiationServer" then Gen.TlsNextProtocolName_wire
+  else Gen.TlsProtocolName_wire
+
+def cName (table : List Gen.WireName) (i : Nat) : String :=
+  match table[i]? with
+  | some e => hexOrDash e.wire
+  | none => "?"
+
+def cGroup (i : Nat) : String := s!"E{Gen.TlsNamedCurve.codes.getD i 0}"
+
+def cKeyShare (e : KeyShare) : String :=
+  s!"{cCoded Gen.TlsNamedCurve.codes e.group}:{hexOrDash e.key}"
+
+def cSct (s : Sct) : String :=
+  "Sct(" ++ ",".intercalate [toString s.version, hexOrDash s.log, toString s.timestamp, hexOrDash s.extensions,
+    s!"E{Gen.TlsSignatureAndHashAlgorithm.codes.getD s.algorithm 0}", hexOrDash s.signature] ++ ")"
+
+def cExt2Body (cls : String) : Ext2Body → String
+  | .hostName h => hexOrDash h
+  | .names items => cList (items.map (cName (extNames cls)))
+  | .statusRequest ids exts => cList (ids.map hexOrDash) ++ "/" ++ hexOrDash exts
+  | .keyShares entries => cList (entries.map cKeyShare)
+  | .keyShare g key => s!"{cGroup g}:{hexOrDash key}"
+  | .group g => cGroup g
+  | .tokenBinding major minor params =>
+    s!"{major}.{minor}:{cList (params.map (cCoded Gen.TlsTokenBindingParamater.codes))}"
+  | .scts items => cList (items.map cSct)
+
 def cExtBody (cls : String) : ExtBody → String
   | .raw d => hexOrDash d
   | .empty => "~"
@@ -32,6 +62,7 @@ def cExtBody (cls : String) : ExtBody → String
   | .opaque d => hexOrDash d
   | .num v => toString v
   | .version i => cVersion i
+  | .ext2 b => cExt2Body cls b
 
 def cExt (e : Ext) : String := s!"{e.cls}({e.typ},{cExtBody e.cls e.body})"
 
@@ -57,6 +88,13 @@ def cHandshake : Handshake → String
   | .serverKeyExchange p => s!"TlsHandshakeServerKeyExchange({hexOrDash p})"
   | .certificateStatus t s => s!"TlsHandshakeCertificateStatus({t},{hexOrDash s})"
   | .serverHelloDone => "TlsHandshakeServerHelloDone()"
+  | .certificateRequest r =>
+    "TlsHandshakeCertificateRequest(" ++ ",".intercalate [
+      cList (r.certificateTypes.map toString),
+      (match r.signatureAlgorithms with
+        | none => "~"
+        | some algs => cList (algs.map (cCoded Gen.TlsSignatureAndHashAlgorithm.codes))),
+      cList (r.authorities.map hexOrDash)] ++ ")"
 
 /-- A modelled class behind the line protocol: parse to (canonical text, consumed, recomposition). -/
 structure DrvClass where
@@ -80,6 +118,7 @@ def tlsClasses : List DrvClass := [
   hsOnly "TlsHandshakeClientHello", hsOnly "TlsHandshakeServerHello", hsOnly "TlsHandshakeHelloRetryRequest",
   hsOnly "TlsHandshakeCertificate", hsOnly "TlsHandshakeServerKeyExchange",
   hsOnly "TlsHandshakeCertificateStatus", hsOnly "TlsHandshakeServerHelloDone",
+  hsOnly "TlsHandshakeCertificateRequest",
   mkClass "TlsHandshakeMessageVariant" parseHandshakeVariant composeHandshake cHandshake,
   mkClass "TlsExtensionVariantClient" (parseExtVariant Gen.extVariantsClient) composeExt cExt,
   mkClass "TlsExtensionVariantServer" (parseExtVariant Gen.extVariantsServer) composeExt cExt,
